@@ -105,3 +105,38 @@ def frame_c18_bounded_callset(f, base):
     if unknown:
         return row("c18.no_alloc_callee", False, "", undecided="callee(s) without an effect annotation: " + "; ".join(unknown[:5]))
     return row("c18.no_alloc_callee", True, "%d post-construction functions of the bounded family (incl. the waker vtable functions) call only effect-annotated non-allocating callees" % len(base["c18_bounded_post_construction"]))
+
+def _before(seq, a, b):
+    """every occurrence of a precedes the first occurrence of b (both present)"""
+    if a not in seq or b not in seq:
+        return None
+    return max(i for i, x in enumerate(seq) if x == a) < min(i for i, x in enumerate(seq) if x == b)
+
+ORDER_RULES = [
+    # (function key, earlier call, later call, what it protects)
+    ("src/waker_list.rs:::waker/wake_by_ref", ".enqueue", ".notify", "the slot is queued before the task waker is notified (else the woken task can find the queue empty and sleep again)"),
+    ("src/waker_list.rs:::waker/wake_by_ref", ".lock", ".enqueue", "the queued flag is tested under the slot lock before the slot is enqueued"),
+    ("src/waker_list.rs:WakerList::pop", ".try_dequeue_unchecked", "=*slot.wake_lock.lock()<-false", "the queued flag is cleared only after the slot left the queue"),
+    ("src/waker_list.rs:WakerList::push", ".lock", ".enqueue", "the queued flag is tested under the slot lock before the slot is enqueued"),
+    ("src/waker_list.rs:::waker/wake", "wake_by_ref", "drop_waker", "wake() notifies before it gives up its reference"),
+    ("src/futures_unordered_bounded.rs:FuturesUnorderedBounded::poll_inner_no_remove", ".register", ".pop", "the task waker is registered before the ready queue is drained"),
+]
+
+def frame_c01_protocol_order(f, base):
+    bad, lost = [], []
+    for fn, a, b, why in ORDER_RULES:
+        seq = f.get("call_seq", {}).get(fn)
+        if seq is None:
+            lost.append("%s not found" % fn)
+            continue
+        r = _before(seq, a, b)
+        if r is None:
+            # one of the two calls disappeared: a dropped step of the protocol
+            bad.append("%s: `%s` or `%s` is missing (%s)" % (fn, a, b, why))
+        elif not r:
+            bad.append("%s: `%s` no longer precedes `%s` (%s)" % (fn, a, b, why))
+    if lost:
+        return row("c01.protocol_order", False, "", undecided="; ".join(lost))
+    if bad:
+        return row("c01.protocol_order", False, "wake-up protocol step order broken: " + "; ".join(bad), where=bad[0].split(":")[0])
+    return row("c01.protocol_order", True, "%d statement-order conditions of the wake-up protocol hold in src/waker_list.rs / poll_inner_no_remove (syntactic order check on the AST; not a proof about interleavings)" % len(ORDER_RULES))
